@@ -233,6 +233,9 @@ func (e *Engine) registerEnvIntrinsics(pkgPath string) {
 		}
 		return BoolC(ok)
 	})
+	reg("vrtLegalASCII", func(x *Exec, fr *frame, a []Value) Value {
+		return InRe(x.term(a[0]), `(re.* (re.union (str.to_re "\u{9}") (str.to_re "\u{a}") (str.to_re "\u{d}") (re.range " " "~")))`)
+	})
 	reg("vrtXMLDocs", func(x *Exec, fr *frame, a []Value) Value {
 		n := 0
 		for _, p := range flatten(x.term(a[0])) {
@@ -516,7 +519,7 @@ func (e *Engine) registerEnvIntrinsics(pkgPath string) {
 	// vrtEnvelopedValid(valuePtr, sigPtr, certDER): the enveloped signature
 	// found in sig verifies over the value as it is on the wire
 	reg("vrtEnvelopedValid", func(x *Exec, fr *frame, a []Value) Value {
-		return And(x.envelopedValid(a[0], a[1], x.term(a[2])), Not(x.c14nSensitive(a[0])))
+		return And(x.envelopedValid(a[0], a[1], x.term(a[2])), Not(x.c14nSensitive(a[0])), Not(x.c14nXMLPrefixedAttr(a[0])))
 	})
 	reg("vrtC14NSensitive", func(x *Exec, fr *frame, a []Value) Value { return x.c14nSensitive(a[0]) })
 	// the SP signs (C05/C07)
@@ -854,6 +857,70 @@ func (x *Exec) c14nSensitive(value Value) *Term {
 		}
 	}
 	walk(x.load(vp), vt, false, true, 0)
+	return r
+}
+
+// Second part of the xmlsig contract (same source): an attribute in a namespace is
+// written with the prefix declared for that namespace *on the same element*;
+// encoding/xml declares one for every namespace except the predefined xml
+// namespace, so an emitted attribute tagged with
+// "http://www.w3.org/XML/1998/namespace" is digested as ":name" where C14N has
+// "xml:name". c14nXMLPrefixedAttr: the signed value has such an attribute on the wire.
+func (x *Exec) c14nXMLPrefixedAttr(value Value) *Term {
+	v := x.force(value)
+	if iv, ok := v.(*IfaceV); ok && iv.T != nil {
+		v = x.force(iv.V)
+	}
+	vp, ok := v.(*Pointer)
+	if !ok || vp.IsNil() {
+		return FalseT
+	}
+	vt := typeAt(vp.Cell.Typ, vp.Path)
+	if vt == nil {
+		return FalseT
+	}
+	r := FalseT
+	var walk func(v Value, t types.Type, top bool, depth int)
+	walk = func(v Value, t types.Type, top bool, depth int) {
+		if depth > 40 || v == nil {
+			return
+		}
+		switch a := x.force(v).(type) {
+		case *Pointer:
+			if !a.IsNil() {
+				if pt, ok := t.Underlying().(*types.Pointer); ok {
+					walk(x.load(a), pt.Elem(), false, depth+1)
+				}
+			}
+		case *StructV:
+			st, ok := t.Underlying().(*types.Struct)
+			if !ok {
+				return
+			}
+			for i := 0; i < st.NumFields() && i < len(a.F); i++ {
+				tag := st.Tag(i)
+				if top && st.Field(i).Name() == "Signature" {
+					continue
+				}
+				if strings.Contains(tag, `xml:"http://www.w3.org/XML/1998/namespace `) && strings.Contains(tag, ",attr") {
+					if ft, ok := a.F[i].(*Term); ok && ft.Sort == SStr && strings.Contains(tag, ",omitempty") {
+						r = Or(r, Not(Eq(ft, StrC(""))))
+					} else {
+						r = TrueT
+					}
+					continue
+				}
+				walk(a.F[i], st.Field(i).Type(), false, depth+1)
+			}
+		case *SliceV:
+			if sl, ok := t.Underlying().(*types.Slice); ok {
+				for _, e := range x.sliceElems(a) {
+					walk(e, sl.Elem(), false, depth+1)
+				}
+			}
+		}
+	}
+	walk(x.load(vp), vt, true, 0)
 	return r
 }
 
